@@ -239,6 +239,32 @@ def run(chk):
                 e = eb.operand(t["args"][1])
                 pushed.append((t["line"], e))
         chk.anchor(len(pushed) == 3, "R-6BIT", "%s: three channel pushes (found %d)" % (name, len(pushed)))
+        # what the function returns is the vector that receives the three pushes, on every path (no value-dependent shortcut
+        # that hands back something else)
+        vecs = set()
+        for bi, t in b.calls():
+            if (t["callee"].get("resolved") or "").endswith("Vec::<T, A>::push") and len(t["args"]) == 2:
+                pj = t["args"][0].get("move") or t["args"][0].get("copy")
+                ds = b.defs.get(pj["l"], []) if pj is not None else []
+                if len(ds) == 1 and ds[0][1] != "term":
+                    rv = b.blocks[ds[0][0]]["stmts"][ds[0][1]]["rv"]
+                    if rv["k"] == "ref" and not rv["p"].get("p"):
+                        vecs.add(rv["p"]["l"])
+        rdefs = b.defs.get(0, [])
+        other = []
+        for bi, k in rdefs:
+            if k == "term":
+                other.append("call %s" % ((b.blocks[bi]["term"]["callee"].get("resolved") or b.blocks[bi]["term"]["callee"].get("path") or "?").split("::")[-1]))
+                continue
+            rv = b.blocks[bi]["stmts"][k]["rv"]
+            pj = rv["a"].get("move") or rv["a"].get("copy") if rv["k"] == "use" else None
+            if pj is None or pj.get("p") or pj["l"] not in vecs:
+                other.append(show(eb.rvalue(rv))[:60])
+        ok = bool(rdefs) and len(vecs) == 1 and not other
+        chk.obligation(ok)
+        if not ok:
+            chk.finding("%s|6bit-other-return" % b.short(), rule="R-6BIT", where="%s:%s" % (b.file, b.line), fn=b.short(),
+                        what="the function can return something else than the vector of reduced channels (%s): on that path the values are not c>>2" % (other or "no single output vector"))
         allsrc = []
         for line, e in pushed:
             nf, srcs, fail = norm(e)
